@@ -17,7 +17,9 @@ class FieldDatatype:
       The datatype symbol.
       (One of gfapy.Field.FIELD_DATATYPE)
     """
-    fieldname = self.__class__.FIELD_ALIAS.get(fieldname, fieldname)
+    if fieldname not in self._data:
+      # (a tag of the line may have the name of an alias, e.g. LN in GFA2 S lines)
+      fieldname = self.__class__.FIELD_ALIAS.get(fieldname, fieldname)
     return self._field_or_default_datatype(fieldname,
         self._data.get(fieldname,None))
 
